@@ -16,6 +16,8 @@ THEOREMS = [_NS + t for t in (
     "print_scan_roundtrip_partial",
     # tier 3, partial: with compression off the full statement (scalars and arrays of scalars)
     "print_scan_roundtrip_nocompress", "array_roundtrip_nocompress",
+    # tier 3, range compression, for lists that are one run: nxA and a [b] ... z
+    "range_roundtrip_const", "range_roundtrip_int",
     # the model is written over the constants/tables extracted from the source on every run
     "tables_agree", "escape_tables_inverse")]
 HARNESS = {"src": ["pretty.cpp"]}
@@ -34,8 +36,12 @@ ASSUMPTIONS = [
     "tier 2 (lists and whole messages, any line length, precision 0..9) provided the printer does not compress "
     "(compression off, or no five same-typed values in a row); tier 3 partly: with compression off the full "
     "statement incl. arrays of scalars (print_scan_roundtrip_nocompress)",
-    "NOT proved, covered by correspondence + round-trip oracle only: compressed runs (nxA, a b ... c) in lists and "
-    "arrays, nested arrays, a midnight time tag (printed as a bare date) anywhere but at the end of the text",
+    "range compression is proved for lists that consist of exactly one run: n >= 5 copies of any scalar (nxA), or an int32 "
+    "arithmetic run with any step (a ... z / a b ... z) that stays inside int32 incl. the step behind its last element "
+    "and is not wider than 2^31-1",
+    "NOT proved, covered by correspondence + round-trip oracle only: compressed runs inside longer lists and inside "
+    "arrays, runs of 'h' 'c' values and of arrays, nested arrays, a midnight time tag (printed as a bare date) anywhere "
+    "but at the end of the text",
     "TZ=UTC, LC_ALL=C; separator \" \"; the output buffer is large enough (the bs bookkeeping only feeds asserts compiled out with NDEBUG)",
     "the scanner's string buffer is abstracted: string/blob cells carry their bytes",
 ]
